@@ -30,6 +30,6 @@ GViewDeep == <<vars, resetAt>>
 (* print the script of every finished run the configuration asks for (always TRUE: used as an invariant) *)
 AllResets == 0..(MaxRetries + 1)
 CONSTANT WantResets      \* the values of resetAt whose runs are exported
-Export == pc = "done" /\ resetAt \in WantResets => PrintT(<<"SCRIPT", ToJson(hist)>>)
+Export == resetAt \in WantResets => PrintT(<<"SCRIPT", ToJson(hist)>>)
 ASSUME PrintT(<<"VARIANTS", ToJson(Variants)>>)
 =============================================================================
